@@ -261,8 +261,39 @@ def run(prog, ctx):
         lv = formula.leaves(e)
         k1k = [k for k in lv if k.startswith("read_u64_le(") and "RangeTo" in k]
         k2k = [k for k in lv if k.startswith("read_u64_le(") and "RangeTo" not in k]
+        # by value on concrete carry buffers whose bytes beyond the pending length are stale (non-zero): the tail words must be
+        # taken from the pending bytes only
+        conc = None
         try:
+            conc = True
+            for rem in range(0, 16):
+                for _ in range(4):
+                    h1, h2 = rnd.getrandbits(64), rnd.getrandbits(64)
+                    total = rnd.randrange(0, 1 << 20) * 16
+                    buf = [rnd.randrange(1, 256) for _ in range(16)]
+                    k1 = int.from_bytes(bytes(buf[:min(rem, 8)]), "little")
+                    k2 = int.from_bytes(bytes(buf[8:rem]), "little") if rem > 8 else 0
+                    env = {"@prog": prog, "self.h1": h1, "self.h2": h2, "self.total": total, "self.buf_len": rem, "self.buf": buf,
+                           "@fn:fmix64": ref_fmix64, "@fn:read_u64_le": lambda bs: int.from_bytes(bytes(bs[:8]), "little"), "@cache": {}}
+                    got = formula.evaluate(e, env)
+                    if tuple(got) != ref_murmur_finish(h1, h2, total, rem, k1, k2):
+                        conc = (rem,)
+                        break
+                if conc is not True:
+                    break
+        except (formula.Uneval, TypeError, KeyError):
+            conc = None
+        if conc is not None and conc is not True:
+            res.violate("C16.K", "C16.K|murmur-finish", "MurmurHash3 finish128 differs from the published algorithm for a tail of %d byte(s) when the carry buffer holds stale bytes beyond the pending length" % conc[0], ff.id)
+            n_k -= 0
+        try:
+            if conc is not None and conc is not True:
+                raise formula.Uneval("already reported")
             if not k1k or not k2k:
+                if conc is True:
+                    res.discharged += 1
+                    res.sample({"rule": "C16.K", "fn": ff.id, "tails": "0..=15 x 4 concrete carry buffers"})
+                    raise formula.Uneval("done")
                 raise formula.Uneval("tail reads not found")
             bad = None
             for rem in range(0, 16):
@@ -284,8 +315,9 @@ def run(prog, ctx):
                 res.discharged += 1
                 res.sample({"rule": "C16.K", "fn": ff.id, "tails": "0..=15 x 6 random states"})
         except formula.Uneval as u:
-            res.undecided += 1
-            res.extra.setdefault("uneval", []).append("%s: %s" % (ff.id, u))
+            if str(u) not in ("done", "already reported"):
+                res.undecided += 1
+                res.extra.setdefault("uneval", []).append("%s: %s" % (ff.id, u))
     # xxhash accumulator initialisation
     fx = prog.fns.get("hash::xxhash::XxHash64::with_seed")
     if fx is not None:
